@@ -5,9 +5,28 @@ usage: mkprops.py PID 'header-requires' name=Module.lemma ...   (development aid
 import sys, subprocess, re, os
 COQ = os.path.join(os.path.dirname(os.path.dirname(os.path.abspath(__file__))), 'coq')
 
+def refresh(pid):
+    """re-derive every statement of an existing Properties/<pid>.v from the lemmas it cites (header, order and hand-written tail kept)"""
+    src = open(os.path.join(COQ, 'Properties', pid + '.v')).read()
+    title = re.search(r'\(\* ' + pid + r' -- (.*?)\n', src).group(1)
+    first = src.index('\nTheorem ')
+    header = src[src.index('*)') + 2:first].strip()
+    blocks = list(re.finditer(r'(\(\* implicit \*\)\n)?Theorem (\w+) :\n(.*?)\nProof\. exact \(@([\w.]+)\)\. Qed\.\nPrint Assumptions \w+\.\n', src, re.S))
+    tail = src[blocks[-1].end():]
+    args = [('!' if (b.group(1) or '@' in b.group(3)) else '') + b.group(2) + '=' + b.group(4) for b in blocks]
+    return title, header, args, tail
+
+
 def main():
-    pid, title, requires = sys.argv[1], sys.argv[2], sys.argv[3]
-    pairs = [a.split('=') for a in sys.argv[4:]]
+    tail = ''
+    if sys.argv[1] == '--refresh':
+        pid = sys.argv[2]
+        title, requires, args, tail = refresh(pid)
+        pairs = [a.split('=') for a in args]
+    else:
+        pid, title, requires = sys.argv[1], sys.argv[2], sys.argv[3]
+        pairs = [a.split('=') for a in sys.argv[4:]]
+    implicit = {n.lstrip('!') for n, _ in pairs if n.startswith('!')}
     script = requires + '\nSet Printing Width 110.\nSet Printing Depth 1000.\n'
     for name, lem in pairs:
         if name.startswith('!'):
@@ -27,8 +46,8 @@ def main():
     txt = f'(* {pid} -- {title}\n   Only statements here: every theorem is closed by `exact <lemma proved in Proofs/ or Glue/>` and followed by\n   Print Assumptions.  GENERATED skeleton (tools/mkprops.py), statements are the ones Coq prints for the lemmas. *)\n'
     txt += requires + '\n\n'
     for name, lem in pairs:
-        txt += f'Theorem {name} :\n  {types[lem]}.\nProof. exact (@{lem}). Qed.\nPrint Assumptions {name}.\n\n'
-    open(os.path.join(COQ, 'Properties', pid + '.v'), 'w').write(txt)
+        txt += ('(* implicit *)\n' if name in implicit else '') + f'Theorem {name} :\n  {types[lem]}.\nProof. exact (@{lem}). Qed.\nPrint Assumptions {name}.\n\n'
+    open(os.path.join(COQ, 'Properties', pid + '.v'), 'w').write(txt.rstrip('\n') + '\n' + (tail if tail.strip() else ''))
     print('wrote', pid, len(pairs), 'theorems')
 
 main()
